@@ -251,8 +251,7 @@ def decide(prop, rule_names, sites, stats, tier, t0, selftest=None, extra_broken
             continue
         if r['kind'] in ('ok', 'violation'):
             pr['resolved_all_files'] += 1
-        flt = rules.FILTER.get((prop, r['rule']))
-        if flt and not _re.search(flt, r['file']):
+        if not rules.attributed(prop, r):
             pr['elsewhere'] += 1  # a site of this rule that belongs to another property's code
             continue
         pr[r['kind']] += 1
